@@ -133,3 +133,21 @@ def full_plan(pid, tier, seed, quick_n3=120, **kw):
                              nrhs=1 + (k % 5 == 0), ldb=(4 if k % 4 == 0 else None), vendor=(k % 5 < 2),
                              dyn=(k % 7 == 3), **kw))
     return qs
+
+
+def fullx_srcs(p='d'):
+    return pipeline_srcs(p) + [('p%sgssvx.c' % p, ['-D%sgstrs=vh_%sgstrs_cut' % (p, p)]), p + 'pivotgrowth.c', p + 'langs.c']
+
+
+def fullx_query(pid, n, pat, pref, permc, cfg, trans=0, nr=False, sym=False, scen=0, usepr=0, nprocs=1, timeout=300, tagx=''):
+    W, RELAX, MAXSUP, ROWBLK, COLBLK = cfg
+    defs = {'N': n, 'PAT': hex(pat), 'VH_PIVPREF': cinit(pref), 'VH_PERMC': cinit(permc), 'VH_W': W, 'VH_RELAX': RELAX, 'VH_MAXSUP': MAXSUP,
+            'VH_ROWBLK': ROWBLK, 'VH_COLBLK': COLBLK, 'NPROCS': nprocs, 'VH_TRANS': trans, 'SCEN': scen, 'VH_SYM': 1 if sym else 0, 'VH_USEPR': usepr}
+    if nr:
+        defs['VH_NR'] = None
+    if sym:
+        defs['VH_DIAG_PIVOT'] = None
+    name = '%s.fullx.n%d.p%x.pv%s.pc%s.w%d%d%d.t%d%s%s.s%d.u%d.P%d%s' % (pid, n, pat, ''.join(map(str, pref)), ''.join(map(str, permc)), W, RELAX, MAXSUP,
+                                                                      trans, '.nr' if nr else '', '.sym' if sym else '', scen, usepr, nprocs, tagx)
+    return Query(name, 'fullx_h.c', fullx_srcs('d'), defs=defs, engine='smt', mode='real', unwind=8 * n + 40, timeout=timeout,
+                 group='expert driver %s n=%d' % ({0: 'one call', 1: 'factor / re-factor / reuse'}[scen] + (' symmetric mode' if sym else ''), n))
